@@ -27,6 +27,10 @@ Assemble == /\ pc = "assemble"
             /\ pc' = "done" /\ UNCHANGED <<bars, snapped, W, j>>
 Next == SnapAll \/ AddRamp \/ SortColumns \/ Assemble
 Spec == Init /\ [][Next]_vars
+FairSpec == Spec /\ WF_vars(Next)
+Termination == <>(pc = "done")
+\* the input bars are never written (C19 at the level of this routine) and the bar counter only advances
+InputUntouched == [][bars' = bars /\ j' >= j]_vars
 
 HalfStep    == pc = "done" => HalfStepOK(bars, N, S, vals)
 ExactOnGrid == (pc = "done" /\ OnGrid(bars, S)) => ExactOK(bars, N, S, vals)
